@@ -201,24 +201,51 @@ def listing (h : Host) : Kind → List Nat
   | .pre => 1 :: 2 :: h.preEntries
   | _ => 1 :: 2 :: h.dirEntries
 
-/-- fd_readdir once `DirentCache.Read` has returned the entries `names` (name lengths) -/
-def readdirEmit (m : Mem) (buf bufLen res : Nat) (names : List Nat) : List Res :=
+/-- the bytes `writeDirents` stores for `count` entries starting at `pos`: d_next, d_namlen, d_type and the name
+(d_ino is the host's business); `skip` = index of the entry whose name is not written -/
+def direntWrites (buf : Nat) (skip : Option Nat) : List (List Nat × Nat) → Nat → Nat → Nat → Nat → List Wr
+  | _, 0, _, _, _ => []
+  | [], _ + 1, _, _, _ => []
+  | (name, ty) :: rest, k + 1, i, pos, dNext =>
+    let hdr := [Wr.bytes (buf + pos) (bytesLE 8 (dNext % W64)),
+                Wr.bytes (buf + pos + 16) (bytesLE 4 (w32 name.length) ++ bytesLE 4 ty)]
+    if skip = some i then hdr ++ direntWrites buf skip rest k (i + 1) (pos + 24) (dNext + 1)
+    else hdr ++ (if name.isEmpty then [] else [Wr.bytes (buf + pos + 24) name]) ++
+      direntWrites buf skip rest k (i + 1) (pos + 24 + name.length) (dNext + 1)
+
+/-- the exact part of what fd_readdir stores, kept inside the `bufToWrite` bytes by construction -/
+def exactDirents (buf bufToWrite dNext : Nat) (ents : List (List Nat × Nat)) (direntCount truncatedLen : Nat) : List Wr :=
+  let ws := if truncatedLen > 0 then
+      if truncatedLen < 24 then direntWrites buf none ents (direntCount - 1) 0 0 dNext
+      else direntWrites buf (some (direntCount - 1)) ents direntCount 0 0 dNext
+    else direntWrites buf none ents direntCount 0 0 dNext
+  ws.filter (fun w => decide (buf ≤ w.off) && decide (w.off + w.len ≤ buf + bufToWrite))
+
+/-- fd_readdir once `DirentCache.Read` has returned the entries `names` (name lengths; `ents` = the same entries
+with name bytes and file type when the host listing is known, else `[]`) -/
+def readdirEmit (m : Mem) (buf bufLen res : Nat) (names : List Nat) (ents : List (List Nat × Nat)) (dNext : Nat) : List Res :=
   match maxDirents names bufLen with
   | none => rE .panic
   | some (bufToWrite, direntCount, truncatedLen) =>
     let bufused := if truncatedLen > 0 then bufLen else bufToWrite
+    let ex := if ents.map (fun e => e.1.length) = names then exactDirents buf bufToWrite dNext ents direntCount truncatedLen else []
     if bufToWrite > 0 then
       if !m.has buf bufToWrite then rE efault else
       match writeDirents bufToWrite names direntCount truncatedLen with
       | none => [{ err := .panic, writes := [Wr.region buf bufToWrite] }]
       | some _ =>
-        if !m.has res 4 then [{ err := efault, writes := [Wr.region buf bufToWrite] }]
-        else [{ err := .errno 0, writes := [Wr.region buf bufToWrite, Wr.bytes res (bytesLE 4 bufused)] }]
+        if !m.has res 4 then [{ err := efault, writes := Wr.region buf bufToWrite :: ex }]
+        else [{ err := .errno 0, writes := Wr.region buf bufToWrite :: (ex ++ [Wr.bytes res (bytesLE 4 bufused)]) }]
     else
       if !m.has res 4 then rE efault else [{ err := .errno 0, writes := [Wr.bytes res (bytesLE 4 bufused)] }]
 
 /-- `countRead` of the dirent cache: 0 on a fresh cache, the whole listing on a completely read one -/
 def countRead (h : Host) (k : Kind) : Nat := if h.cacheFull then (listing h k).length else 0
+
+/-- the listing with names and types, when the host configuration has it -/
+def listingNames (h : Host) : Kind → List (List Nat × Nat)
+  | .pre => ([46], 3) :: ([46, 46], 3) :: h.preNames
+  | _ => ([46], 3) :: ([46, 46], 3) :: h.dirNames
 
 def fdReaddir (h : Host) (fds : Fds) (m : Mem) (fd buf bufLen cookie res : Nat) : List Res :=
   if bufLen < DirentSize then rE einval else
@@ -231,6 +258,7 @@ def fdReaddir (h : Host) (fds : Fds) (m : Mem) (fd buf bufLen cookie res : Nat) 
     if cookie > countRead h k then rE enoent else
     let maxDirEntries := w32 (w32 (bufLen / DirentSize + 1) + 1)
     readdirEmit m buf bufLen res (((listing h k).drop cookie).take maxDirEntries)
+      (((listingNames h k).drop cookie).take maxDirEntries) (cookie + 1)
 
 /-! ### path functions -/
 
